@@ -183,6 +183,10 @@ def branchNodeLength : Nat := 16
 
 def u64 (n : Nat) : Nat := n % 2 ^ 64
 
+/-- `isNibbles`: every element of a decoded short-node key is a nibble (fix f270208: key elements index the sixteen
+    children of a branch) -/
+def isNibbles (k : Bytes) : Bool := k.all (fun b => decide (b.toNat < 16))
+
 /-- one child entry of a persisted branch (the body of the loop in `DeserializeNode`); `none` = no child -/
 def deserializeChild (child : Bytes) : Res (Option WN) :=
   if child.length ≥ hashWithWeightLength then
@@ -194,7 +198,9 @@ def deserializeChild (child : Bytes) : Res (Option WN) :=
         else if child.length < hashWithWeightLength + 32 then .err .other
         else
           match slice child hashWithWeightLength (hashWithWeightLength + 32), sliceFrom child (hashWithWeightLength + 32) with
-          | .ok vh, .ok key => .ok (some (.short key childHash (.hashRef vh w) false false))
+          | .ok vh, .ok key =>
+            if !isNibbles key then .err .other                 -- "invalid short node key"
+            else .ok (some (.short key childHash (.hashRef vh w) false false))
           | .err e, _ => .err e
           | _, .err e => .err e
       | .err e => .err e
@@ -236,7 +242,8 @@ def deserializeNode (p : PBase) : Res WN :=
         | none =>
           match p.short with
           | some s =>
-            if s.value.length ≠ hashWithWeightLength then .err .other
+            if !isNibbles s.key then .err .other               -- "invalid short node key"
+            else if s.value.length ≠ hashWithWeightLength then .err .other
             else
               match slice s.value 0 32, sliceFrom s.value 32 with
               | .ok vh, .ok rest =>
